@@ -30,6 +30,13 @@ def to_lisp(e):
     if k == "do":
         return f"(do {to_lisp(e[1])} {to_lisp(e[2])})"
     if k == "let":
+        from harness.props import c01_full as _F
+        if _F.FLAT[0]:
+            binds, body = [], e
+            while body[0] == "let":
+                binds.append(f"{LOCALS[body[1]]} {to_lisp(body[2])}")
+                body = body[3]
+            return f"(let* [{' '.join(binds)}] {to_lisp(body)})"
         return f"(let* [{LOCALS[e[1]]} {to_lisp(e[2])}] {to_lisp(e[3])})"
     if k == "call":
         fn = {"t": "t", "vec": "vector"}[e[1]]
@@ -220,6 +227,26 @@ def programs(tier, rng):
 
 
 def cases(tier, rng):
+    """every program is printed either with nested single-binding let* forms or (flat) with one
+    let* binding vector, as the `let` macro emits; the Coq case is the same program"""
+    from harness.props import c01_full as F
+    out = []
+    for c in _cases(tier, rng):
+        flat = (rng.random() < 0.5) or c["kind"].startswith("mech:let-rebind")
+        F.FLAT[0] = flat
+        try:
+            c["lisp"] = F.to_lisp(c["e"]) if c.get("full") else to_lisp(c["e"])
+        finally:
+            F.FLAT[0] = False
+        c["flat"] = flat
+        out.append(c)
+        if c["kind"].startswith("mech:") and flat and "let*" in c["lisp"]:
+            c2 = dict(c, flat=False, lisp=F.to_lisp(c["e"]))
+            out.append(c2)
+    return out
+
+
+def _cases(tier, rng):
     from harness.props import c01_full as F
     seen = set()
     for kind, e in programs(tier, rng):
